@@ -30,10 +30,12 @@ Proof.
   - destruct b; simpl in *; try discriminate. f_equal. apply H. assumption.
   - destruct b; simpl in *; try discriminate. f_equal. apply Nat.eqb_eq. assumption.
   - destruct b; simpl in *; try discriminate. f_equal. apply H. assumption.
+  - destruct b; simpl in *; try discriminate. f_equal. apply H. assumption.
   - destruct s; simpl in *; try discriminate. reflexivity.
   - destruct s; simpl in *; try discriminate.
     apply andb_true_iff in H1. destruct H1 as [H1 H3]. apply andb_true_iff in H1. destruct H1 as [H1 H2].
     apply String.eqb_eq in H1. subst. f_equal; [apply H|apply H0]; assumption.
+  - destruct s; simpl in *; try discriminate. f_equal. apply Nat.eqb_eq. assumption.
   - destruct s; simpl in *; try discriminate. reflexivity.
   - destruct s; simpl in *; try discriminate.
     apply andb_true_iff in H0. destruct H0 as [H1 H2]. apply String.eqb_eq in H1. subst.
@@ -83,6 +85,7 @@ Proof.
   - rewrite subb_eq in H0. apply orb_true_iff in H0. destruct H0 as [H0|H0]; [apply ty_eqb_eq in H0; subst; constructor|destruct b; discriminate].
   - rewrite subb_eq in H. apply orb_true_iff in H. destruct H as [H|H]; [apply ty_eqb_eq in H; subst; constructor|destruct b; discriminate].
   - rewrite subb_eq in H0. apply orb_true_iff in H0. destruct H0 as [H0|H0]; [apply ty_eqb_eq in H0; subst; constructor|destruct b; discriminate].
+  - rewrite subb_eq in H0. apply orb_true_iff in H0. destruct H0 as [H0|H0]; [apply ty_eqb_eq in H0; subst; constructor|destruct b; discriminate].
   - (* RNil *)
     split; intros; [constructor|]. destruct s; simpl in *; try discriminate. constructor.
   - (* RCons *)
@@ -92,6 +95,9 @@ Proof.
     + intros s Hs. destruct s; simpl in Hs; try discriminate.
       apply andb_true_iff in Hs. destruct Hs as [Hs H3]. apply andb_true_iff in Hs. destruct Hs as [H1 H2].
       apply String.eqb_eq in H1. subst. constructor; [apply H; assumption|apply Hboth; assumption].
+  - (* RVar *)
+    split; intros; simpl in *; [discriminate|]. destruct s; try discriminate.
+    apply Nat.eqb_eq in H. subst. constructor.
   - exact I.
   - exact I.
   - exact I.
@@ -109,22 +115,20 @@ Proof.
   destruct (String.eqb t u && Bool.eqb a match x with Some _ => true | None => false end); [reflexivity|apply IH].
 Qed.
 
-Lemma exhaustive_sound : forall r bs e, exhaustive r e bs = true ->
-  forall t, erows_lookup t e <> None -> forall p, erows_lookup t r = Some p ->
-  find_branch t (match p with Some _ => true | None => false end) bs <> None.
+Lemma exhaustive_sound : forall bs e, exhaustive e bs = true ->
+  forall t a p, erows_lookup t a e = Some p -> find_branch t a bs <> None.
 Proof.
-  induction e as [|u e IH|u U e IH]; simpl; intros Hex t Hin p Hl.
-  - exfalso. apply Hin. reflexivity.
+  induction e as [|u e IH|u U e IH]; simpl; intros Hex t a p Hl; [discriminate| |].
   - apply andb_true_iff in Hex. destruct Hex as [Hrow Hrest].
-    destruct (String.eqb t u) eqn:Heq.
-    + apply String.eqb_eq in Heq. subst. rewrite Hl in Hrow.
-      destruct (find_branch u match p with Some _ => true | None => false end bs); [discriminate|discriminate].
-    + apply IH; assumption.
+    destruct (String.eqb t u && negb a) eqn:Heq.
+    + apply andb_true_iff in Heq. destruct Heq as [Heq Ha]. apply String.eqb_eq in Heq. subst.
+      destruct a; [discriminate|]. destruct (find_branch u false bs); [discriminate|discriminate].
+    + eapply IH; eassumption.
   - apply andb_true_iff in Hex. destruct Hex as [Hrow Hrest].
-    destruct (String.eqb t u) eqn:Heq.
-    + apply String.eqb_eq in Heq. subst. rewrite Hl in Hrow.
-      destruct (find_branch u match p with Some _ => true | None => false end bs); [discriminate|discriminate].
-    + apply IH; assumption.
+    destruct (String.eqb t u && a) eqn:Heq.
+    + apply andb_true_iff in Heq. destruct Heq as [Heq Ha]. apply String.eqb_eq in Heq. subst.
+      destruct (find_branch u true bs); [discriminate|discriminate].
+    + eapply IH; eassumption.
 Qed.
 
 (* induction principle for certificates (nested lists) *)
@@ -136,7 +140,7 @@ Section atm_ind'.
   Hypothesis HBool : forall b, P (ABool b).
   Hypothesis HLam : forall x A b, P b -> P (ALam x A b).
   Hypothesis HApp : forall f a, P f -> P a -> P (AApp f a).
-  Hypothesis HLet : forall x k e b, P e -> P b -> P (ALet x k e b).
+  Hypothesis HLet : forall x ks e b, P e -> P b -> P (ALet x ks e b).
   Hypothesis HIf : forall c t e, P c -> P t -> P e -> P (AIf c t e).
   Hypothesis HArr : forall T es, Forall P es -> P (AArr T es).
   Hypothesis HRec : forall fs, Forall (fun fe => P (snd fe)) fs -> P (ARec fs).
@@ -203,19 +207,28 @@ Section Sound.
   Lemma inst_sound : forall insts T T' G e,
     inst T insts = Some T' -> has_type Sg G e T -> has_type Sg G e T'.
   Proof.
-    induction insts as [|S0 rest IH]; simpl; intros T T' G e Hi Ht.
+    induction insts as [|[S0|R] rest IH]; simpl; intros T T' G e Hi Ht.
     - inversion Hi; subst. assumption.
     - destruct T; try discriminate. eapply IH; [eassumption|]. apply T_Inst. assumption.
+    - destruct T; try discriminate. eapply IH; [eassumption|]. apply T_InstR. assumption.
   Qed.
 
-  Lemma foralls_comm : forall k T, foralls k (TForall T) = TForall (foralls k T).
-  Proof. induction k; simpl; intros; [reflexivity|]. rewrite IHk. reflexivity. Qed.
-
-  Lemma gen_sound : forall k G e T,
-    has_type Sg (shift_ctx_n k G) e T -> has_type Sg G e (foralls k T).
+  Lemma gen_sound : forall ks G e T,
+    has_type Sg (ctx_under ks G) e T -> has_type Sg G e (foralls ks T).
   Proof.
-    induction k as [|k IH]; simpl; intros G e T H; [assumption|].
-    rewrite <- foralls_comm. apply IH. apply T_Gen. assumption.
+    induction ks as [|[|] ks IH]; simpl; intros G e T H; [assumption| |].
+    - apply T_GenR. apply IH. assumption.
+    - apply T_Gen. apply IH. assumption.
+  Qed.
+
+  Lemma nodupb_NoDup : forall l, nodupb l = true -> NoDup l.
+  Proof.
+    induction l as [|x l IH]; simpl; intros H; [constructor|].
+    apply andb_true_iff in H. destruct H as [H1 H2]. constructor; [|apply IH; assumption].
+    intros Hin. apply negb_true_iff in H1.
+    assert (existsb (String.eqb x) l = true) as Hx
+      by (apply existsb_exists; exists x; split; [assumption|apply String.eqb_refl]).
+    congruence.
   Qed.
 
   Lemma infer_sound : forall a G T, infer Sg G a = Some T -> has_type Sg G (erase a) T.
@@ -234,7 +247,7 @@ Section Sound.
       destruct (ty_eqb Tf1 A') eqn:He; [|discriminate].
       apply ty_eqb_eq in He. subst. inversion Hi; subst.
       eapply T_App; [apply IHa1|apply IHa2]; eassumption.
-    - destruct (infer Sg (shift_ctx_n k G) a1) as [T1|] eqn:He; [|discriminate].
+    - destruct (infer Sg (ctx_under ks G) a1) as [T1|] eqn:He; [|discriminate].
       eapply T_Let; [|apply IHa2; eassumption].
       apply gen_sound. apply IHa1. assumption.
     - destruct (infer Sg G a1) as [Tc|] eqn:Hc; [|discriminate].
@@ -255,7 +268,10 @@ Section Sound.
       apply IHes; assumption.
     - (* Rec *)
       match type of Hi with match ?c with _ => _ end = _ => destruct c as [r|] eqn:Hr; [|discriminate] end.
-      inversion Hi; subst. apply T_Rec. clear Hi.
+      destruct (nodupb (map fst fs)) eqn:Hnd; [|discriminate].
+      inversion Hi; subst. apply T_Rec.
+      { rewrite map_map. simpl. apply nodupb_NoDup. assumption. }
+      clear Hi Hnd.
       revert r Hr. induction fs as [|[f e] fs IHfs]; simpl; intros r Hr.
       + inversion Hr; subst. constructor.
       + inversion H; subst. simpl in H2.
@@ -268,10 +284,10 @@ Section Sound.
       destruct Te; try discriminate.
       eapply T_Proj; [apply IHa; eassumption|assumption].
     - (* Tag *)
-      destruct (erows_lookup t r) as [[A|]|] eqn:Hl; try discriminate.
+      destruct (erows_lookup t false r) as [[A|]|] eqn:Hl; try discriminate.
       inversion Hi; subst. apply T_Tag. assumption.
     - (* Variant *)
-      destruct (erows_lookup t r) as [[A|]|] eqn:Hl; try discriminate.
+      destruct (erows_lookup t true r) as [[A|]|] eqn:Hl; try discriminate.
       destruct (infer Sg G a) as [A'|] eqn:He; [|discriminate].
       destruct (ty_eqb A A') eqn:Hq; [|discriminate].
       apply ty_eqb_eq in Hq. subst. inversion Hi; subst.
@@ -284,7 +300,7 @@ Section Sound.
       { clear Hi H0. induction bs as [|[[t x] b] bs IHbs]; simpl; [constructor|].
         inversion H as [|? ? Hhd Htl]; subst. simpl in Hhd.
         destruct x as [x|].
-        - destruct (erows_lookup t e) as [[A|]|] eqn:Hl; try discriminate.
+        - destruct (erows_lookup t true e) as [[A|]|] eqn:Hl; try discriminate.
           destruct (infer Sg ((x, A) :: G) b) as [T'|] eqn:Hb; [|discriminate].
           apply andb_true_iff in Hall. destruct Hall as [Hq Hrest].
           apply ty_eqb_eq in Hq. subst. eapply HB_arg; [eassumption|apply Hhd; assumption|].
@@ -302,13 +318,11 @@ Section Sound.
       + match type of Hi with (if ?c then _ else _) = _ => destruct c eqn:Hex; [|discriminate] end.
         inversion Hi; subst.
         eapply T_Match; [apply IHa; eassumption|assumption|].
-        intros t p Hl.
-        pose proof (exhaustive_sound e _ e Hex t) as Hx.
-        assert (Hne : erows_lookup t e <> None) by (rewrite Hl; discriminate).
-        specialize (Hx Hne p Hl).
+        intros t a0 p Hl.
+        pose proof (exhaustive_sound _ e Hex t a0 p Hl) as Hx.
         rewrite (find_branch_map (fun _ : atm => tt)) in Hx.
         rewrite (find_branch_map erase).
-        destruct (find_branch t match p with Some _ => true | None => false end bs) as [[x b]|]; [discriminate|].
+        destruct (find_branch t a0 bs) as [[x b]|]; [discriminate|].
         exfalso. apply Hx. reflexivity.
     - (* Prim *)
       destruct (Sg o) as [T1|] eqn:Hs; [|discriminate].
